@@ -172,7 +172,15 @@ class SeqModel:
         raise Unsupported("comprehension target")
 
 
+op_par = z3.Function("op_parent_id", z3.IntSort(), SS)
+op_par_none = z3.Function("op_parent_id_is_none", z3.IntSort(), z3.BoolSort())
+
+
 def opelem_attr(st, ref, name):
     if ref.cls == "opaque:OpElem" and name == "operation_id":
         return Sym("str", op_id(st.get(ref)["idx"].t))
+    if ref.cls == "opaque:OpElem" and name == "parent_id":
+        from pyvc.ops import mk_opt
+        i = st.get(ref)["idx"].t
+        return mk_opt(op_par_none(i), Sym("str", op_par(i)))
     return None
